@@ -251,8 +251,16 @@ def run(tier, repo=None, tag="repo"):
     rep.rule("V2", "the guarded arms return exactly the documented neutral constants (FastStochastic 50 on both paths, CCI 0)", 3)
     rep.rule("V3", "sqrt operands are non-negative", 1)
     rep.rule("V4", "exact zero/equality guards of degenerate-window arms test only window slots or inputs, never a value derived from a running total (which keeps rounding residue)", 2)
+    rep.rule("V5", "on a flat window StandardDeviation and MeanAbsoluteDeviation are 0 in exact arithmetic: corollary of the window invariants (m = window mean, m2 = sum of squared deviations; sum = window sum) of C01-I3/I4, re-established here", 2)
     F = ir.load("default", repo, tag)
     apply(F, Sink(rep))
+    import rules_c01
+    from rules_c09 import _Map
+    m_ = _Map(rep, {"I3": "V5", "I4": "V5"})
+    try:
+        rules_c01.apply(F, m_)
+    except (symex.Unsupported, KeyError, IndexError, TypeError, AttributeError) as e:
+        Sink.bad(m_, "V5", "unrecognised", "window-invariants", "UNRECOGNISED idiom while establishing the window invariants: %r" % (e,))
     inv = rep.rule("V0", "all 22 indicators analysed (fully inlined terms, class invariants)", 22)
     for s_ in F.indicators():
         inv.ok(s_)
